@@ -13,8 +13,17 @@
   * `C17_fmt_plain_ptr`, `C17_fmt_mref`.
   The parse-back is exercised on the implementation over the C02 generator's range (oracle)
   and the formatter model is tied to types.py by the correspondence `format`.
+  * `C17_chain_round_trip` (`Theorems/ChainRoundTrip.lean`): format → parse at the token level, for every
+    type `d` built from a named type by ANY number of pointer levels with any cv flags:
+    `format_decl(x)` writes the name, exactly the operators `chainOps d` (each `*`, then ` const`,
+    then ` volatile` as flagged) and `x`; those operators are empty or start with `*`; and decoding
+    them the way `_parse_cv_ptr_or_fn` provably does (`C02_pointer_chain`) gives `d` back.  With
+    `C01_toplevel_variable` the token sequence `name ops x ;` parses to exactly one variable of
+    type `d` named `x`.  What stays outside the theorem is that the formatted TEXT lexes to those
+    tokens (lexer model + `lex` / `format` correspondences).
 -/
 import CxxModel.Format
+import CxxModel.Theorems.ChainRoundTrip
 namespace Cxx
 
 theorem C17_decl_type (n : PQName) (c v : Bool) (name : String) :
@@ -50,5 +59,17 @@ theorem C17_fmt_mref (t : DType) : fmtType (.mref t) = fmtType t ++ "&&" := by s
 theorem C17_ptr_cv_both (t : DType) (h : isArrayOrFn t = false) :
     fmtType (.ptr t true true) = fmtType t ++ "* const volatile" := by
   cases t <;> simp_all [fmtType, isArrayOrFn, String.append_assoc]
+
+theorem C17_chain_round_trip (d : DType) (n : PQName) (x : String) (h : isChain d = true) (hb : chainBase d = some n) :
+    fmtDecl d x = fmtPQName n ++ String.join ((chainOps d).map renderOp) ++ " " ++ x ∧
+    fmtType d = fmtPQName n ++ String.join ((chainOps d).map renderOp) ∧
+    (chainOps d = [] ∨ (chainOps d).head? = some "*") ∧
+    applyPtrOps (.type n false false) (chainOps d) = some d :=
+  ⟨chain_format_decl d n x h hb, chain_format d n h hb, chainOps_head d, chain_decodes d n h hb⟩
+
+/-! non-vacuity: `T * const * volatile` -/
+example (n : PQName) : isChain (.ptr (.ptr (.type n false false) true false) false true) = true ∧
+    chainOps (.ptr (.ptr (.type n false false) true false) false true) = ["*", "const", "*", "volatile"] := by
+  constructor <;> rfl
 
 end Cxx
